@@ -257,6 +257,14 @@ def _plot_after_rejected_fit(c, **settings):
     return bm.plot()
 
 
+def _refit_after_edit(c, key, bad):
+    """a valid fit, an in-place edit of a setting to an invalid value, the same fit again: must be rejected"""
+    bm = Bycycle(thresholds=dict(c.th))
+    bm.fit(c.x, c.fs, c.fr)
+    bm.thresholds[key] = bad
+    return bm.fit(c.x, c.fs, c.fr)
+
+
 def templates():
     out = []
     bad_fs = [0, TINY_NEG, -1, -250.0]
@@ -337,6 +345,14 @@ def templates():
             T('compute_amp_consistency[1 row]', 'direction', v, False, lambda c, v=v: compute_amp_consistency(c.df_cyc.iloc[:1].reset_index(drop=True), direction=v)),
             T('compute_period_consistency[2 rows]', 'direction', v, False, lambda c, v=v: compute_period_consistency(c.df_cyc.iloc[:2].reset_index(drop=True), direction=v)),
             T('compute_amp_consistency[flat]', 'direction', v, False, lambda c, v=v: compute_amp_consistency(c.df_cyc.assign(volt_rise=0.0, volt_decay=0.0), direction=v)),
+        ]
+    for key, bad in [('amp_fraction_threshold', 1.5), ('monotonicity_threshold', -0.1), ('min_n_cycles', -1)]:
+        out += [T('Bycycle.fit[refit after in-place edit]', key, bad, False, lambda c, key=key, bad=bad: _refit_after_edit(c, key, bad))]
+    for v in [False, 0, '']:
+        out += [
+            T('compute_features_2d', 'progress', v, False, lambda c, v=v: compute_features_2d(np.array([c.x, c.x[::-1]]), c.fs, c.fr, {'threshold_kwargs': dict(c.th)}, n_jobs=1, progress=v)),
+            T('compute_features_3d', 'progress', v, False, lambda c, v=v: compute_features_3d(np.array([[c.x, c.x[::-1]]]), c.fs, c.fr, {'threshold_kwargs': dict(c.th)}, axis=(0, 1), n_jobs=1, progress=v)),
+            T('BycycleGroup.fit', 'progress', v, False, lambda c, v=v: BycycleGroup(thresholds=dict(c.th)).fit(np.array([c.x, c.x[::-1]]), c.fs, c.fr, n_jobs=1, progress=v)),
         ]
     for bad in [{'monotonicity_threshold': 1.5}, {'min_n_cycles': -1}]:
         out += [T('Bycycle.plot[after rejected fit]', 'thresholds', bad, False, lambda c, bad=bad: _plot_after_rejected_fit(c, thresholds=dict(c.th, **bad)))]
